@@ -190,7 +190,15 @@ def apply_config(s, spec, prob, which=None):
                 kw["tight"] = tight
             if clip is not None:
                 kw["clip"] = clip
-            s.SetStrictRanges(list(lo), list(hi), **kw)
+            lo, hi = list(lo), list(hi)
+            for j, side in spec.get("ranges_none") or ():
+                # an entry the user has no preference for: None stands for the solver default (-1e3 / +1e3), which the spec
+                # carries as the number
+                if side == "lo":
+                    lo[j] = None
+                else:
+                    hi[j] = None
+            s.SetStrictRanges(lo, hi, **kw)
         elif item == "constraints" and spec.get("constraints") is not None:
             s.SetConstraints(prob.constraints_fn(spec["constraints"], prob.inplace))
         elif item == "penalty" and spec.get("penalty") is not None:
